@@ -127,10 +127,12 @@ class Prop:
                          'unreachable_nexthop_excluded']
     correspondence_name = ('Model/Fib.v svc_run vs kernel/src/lib.rs run_service_loop (harness/hx-kernel, real rtnetlink socket); Model/Fib.v step vs daemon/src/table_manager.rs TableManager (insert_route, remove_route, drop_families, '
                            'unregister_peer, drop_stale_families, mark_llgr_stale, drop_llgr_stale_families, update_nexthop_validity, '
-                           'soft_reset_in) with a capturing kernel::KernelHandle (harness/daemon/table_manager_hx.rs verif_fib_cases)')
+                           'soft_reset_in, insert_route under a prefix limit, start_deferral_families, end_deferral_families) with a capturing kernel::KernelHandle (harness/daemon/table_manager_hx.rs verif_fib_cases)')
     rule = ('a case is a history of <= 28 operations; non-trivial when some FIB request carries >= 2 next hops or a withdrawal follows an '
-            'install; distinct = distinct (configuration, canonical request stream); the thorough tier adds every sequence of <= 3 operations '
-            'over a 16-letter alphabet after a two-insert prefix (4368 cases) and 495 kernel reference-count sequences')
+            'install; distinct = distinct (configuration, canonical request stream); on every run 494 enumerated histories (tie-key steps, flag combinations, '
+            'nht_register matrix, remove / peer-operation / soft-reset / reachability / VRF classes, prefix-limit boundaries, deferral) and every '
+            'register/unregister sequence of length <= 4 precede the random ones; the thorough tier adds every sequence of <= 3 operations '
+            'over a 20-letter alphabet (incl. deferral start/end, a limited insert, an IPv6 prefix) after a two-insert prefix and 495 kernel reference-count sequences')
     exhaustive = {'quick': False, 'thorough': False}
     ops_field = 'ops'           # lib/vp/check.py shrink_case drops operations of a failing history
     trusted_base = [
@@ -412,9 +414,13 @@ class Prop:
             al = [('ins', 1, 0, P1, 0, 1, 0), ('ins', 2, 0, P1, 0, 2, 1), ('ins', 3, 0, P1, 0, 1, 5), ('ins', 2, 0, P1, 0, None, 0),
                   ('ins', 2, 0, P1, 0, [2, 101, 1], 1), ('nhv', 101, False),
                   ('rem', 1, 0, P1, 0), ('rem', 2, 0, P1, 0), ('nhv', 1, False), ('nhv', 1, True), ('drop', 2),
-                  ('mstale', 1), ('dstale', 1), ('mllgr', 2), ('pol', 3), ('reset', 2)]
+                  ('mstale', 1), ('dstale', 1), ('mllgr', 2), ('pol', 3), ('reset', 2),
+                  ('sdef', 3), ('edef', 3), ('ins', 1, 0, (3, 1), 0, [1, 101], 0), ('insl', 2, 0, P1, 0, 2, 1, 1, 1)]
             for d in (1, 2, 3):
                 for seq in itertools.product(al, repeat=d):
+                    # a deferral starts on an empty family (assumption): not after the IPv6 insert
+                    if any(o[0] == 'sdef' and any(x[0] == 'ins' and x[3][0] == 3 for x in seq[:i]) for i, o in enumerate(seq)):
+                        continue
                     cases.append(dict(cfg=mk_cfg(0), shards=2,
                                       ops=[('ins', 1, 0, P1, 0, 1, 0), ('ins', 3, 0, P1, 1, 3, 3)] + list(seq)))
         # request sequences for the reference counts of the kernel service task
